@@ -285,3 +285,61 @@ Print Assumptions C20_session_invariant.
     units goes to the same path, a list goes to path 1 and is read, and the table read back from path 0 is the short one *)
 Example C20_session_example : session_example_stmt.
 Proof. exact session_example. Qed.
+
+(** ---------------------------------------------------------------------------------------------------------
+    Fifth pass: Export_Function with ANY list of arguments, and as a call of a session.
+
+    "Writing a ... tabulated function with Export_Function and reading it back ... returns the same shape": one row per
+    argument of x_list.  There is NO premise on the arguments — unsorted lists, the same argument several times (two grids
+    joined at their common end point, 0.0 next to -0.0), arguments the six-digit text cannot tell apart: the number of rows
+    read back is the number of arguments, the line count is header lines + arguments, and equal arguments give equal rows. *)
+Theorem C20_function_rows_one_per_argument {T} (Ops : NumOps T) (fmt6 : T -> T)
+    (header : list (@line T)) (func : T -> T) (xs dims : list T) c t :
+  xs <> [] -> dims = [] \/ length dims = 2%nat ->
+  (Z.of_nat (length header + length xs) < 4294967296)%Z -> (Z.of_nat (length xs * 2) < 4294967296)%Z ->
+  roundtrip_function_list Ops fmt6 header func xs dims = Ok (c, t) ->
+  length t = length xs /\ c = Z.of_nat (length header + length xs) /\
+  forall i j, (i < length xs)%nat -> (j < length xs)%nat -> nth i xs (n0 Ops) = nth j xs (n0 Ops) -> nth i t [] = nth j t [].
+Proof. exact (function_rows_one_per_argument Ops fmt6 header func xs dims c t). Qed.
+Print Assumptions C20_function_rows_one_per_argument.
+
+(** In ONE process: any calls [before] that do not terminate it (exports of lists, tables, functions to any path, p
+    included; imports; line counts), then Export_Function(p, f, x_list, units, header), then any calls [between] not
+    exporting to p, then Import_Table from p with the same units and the header lines written, and Count_Lines: the rows are
+    (x_i, f(x_i)) through format and units, one per argument in the order of x_list, whatever came before. *)
+Theorem C20_session_function_roundtrip {T} (Ops : NumOps T) (fmt6 : T -> T)
+    (fs : @fsys T) before fs1 outs1 p header (func : T -> T) xs dims between fs2 outs2 :
+  io_run Ops fmt6 fs before = Ok (fs1, outs1) ->
+  xs <> [] -> dims = [] \/ length dims = 2%nat ->
+  (Z.of_nat (length header + length xs) < 4294967296)%Z -> (Z.of_nat (length xs * 2) < 4294967296)%Z ->
+  forall fexp, export_function_list Ops fmt6 header func xs dims = Ok fexp ->
+  io_run Ops fmt6 (fs_put fs1 p fexp) between = Ok (fs2, outs2) ->
+  Forall (fun o => writes o <> Some p) between ->
+  io_run Ops fmt6 fs (before ++ OExportFunction p header func xs dims :: between ++ [OImportTable p dims (length header); OCountLines p]) =
+  Ok (fs2, outs1 ++ RUnit :: outs2 ++ [RTable (map (fun x => [back Ops fmt6 dims 0 x; back Ops fmt6 dims 1 (func x)]) xs);
+                                        RCount (Z.of_nat (length header + length xs))]).
+Proof. exact (session_function_roundtrip Ops fmt6 fs before fs1 outs1 p header func xs dims between fs2 outs2). Qed.
+Print Assumptions C20_session_function_roundtrip.
+
+(** ... and the range overload Export_Function(p, f, xMin, xMax, steps, units, logarithmic, header) as a call of a session:
+    `steps` rows (one when steps < 2 or xMin == xMax) — also when the spacing is below the resolution of the number type and
+    neighbouring grid points coincide. *)
+Theorem C20_session_function_range_roundtrip {T} (Ops : NumOps T) (fmt6 : T -> T)
+    (fs : @fsys T) before fs1 outs1 p header (func : T -> T) a b steps lg dims between fs2 outs2 :
+  let xs := grid Ops a b steps lg in
+  io_run Ops fmt6 fs before = Ok (fs1, outs1) ->
+  dims = [] \/ length dims = 2%nat ->
+  (Z.of_nat (length header + Nat.max 1 steps) < 4294967296)%Z -> (Z.of_nat (Nat.max 1 steps * 2) < 4294967296)%Z ->
+  forall fexp, export_function_list Ops fmt6 header func xs dims = Ok fexp ->
+  io_run Ops fmt6 (fs_put fs1 p fexp) between = Ok (fs2, outs2) ->
+  Forall (fun o => writes o <> Some p) between ->
+  (length xs = if (Nat.ltb steps 2) || neqb Ops a b then 1%nat else steps) /\
+  io_run Ops fmt6 fs (before ++ OExportFunctionRange p header func a b steps dims lg :: between ++ [OImportTable p dims (length header); OCountLines p]) =
+  Ok (fs2, outs1 ++ RUnit :: outs2 ++ [RTable (map (fun x => [back Ops fmt6 dims 0 x; back Ops fmt6 dims 1 (func x)]) xs);
+                                        RCount (Z.of_nat (length header + length xs))]).
+Proof. exact (session_function_range_roundtrip Ops fmt6 fs before fs1 outs1 p header func a b steps lg dims between fs2 outs2). Qed.
+Print Assumptions C20_session_function_range_roundtrip.
+
+(** non-vacuity: x -> x*x tabulated at 1, 2, 2, 3 over an older table at the same path; four rows read back, five lines *)
+Example C20_session_function_example : session_function_example_stmt.
+Proof. exact session_function_example. Qed.
